@@ -353,6 +353,13 @@ func c14Exhaustive(c *Ctx, depth int) {
 		hdr("crm "+paramsTok(strParams(r2)), func(cs *c14Case) { _, _ = cs.api.RemovePolicy(r2[0], r2[1], r2[2]) }),
 		hdr("crms "+rulesTok([][]string{r1, r2}), func(cs *c14Case) { _, _ = cs.api.RemovePolicies([][]string{r1, r2}) }),
 		hdr("crms "+rulesTok([][]string{r2, r1}), func(cs *c14Case) { _, _ = cs.api.RemovePolicies([][]string{r2, r1}) }),
+		// a rule with more fields in front of the rule whose decision is cached: every rule of a batch is its own key
+		hdr("crms "+rulesTok([][]string{append(append([]string(nil), r1...), "allow"), r2}), func(cs *c14Case) {
+			_, _ = cs.api.RemovePolicies([][]string{append(append([]string(nil), r1...), "allow"), r2})
+		}),
+		hdr("cadds "+rulesTok([][]string{append(append([]string(nil), r2...), "allow"), r1}), func(cs *c14Case) {
+			_, _ = cs.api.AddPolicies([][]string{append(append([]string(nil), r2...), "allow"), r1})
+		}),
 		hdr("cadds "+rulesTok([][]string{r1, r2}), func(cs *c14Case) { _, _ = cs.api.AddPolicies([][]string{r1, r2}) }),
 		hdr("cadds "+rulesTok([][]string{r2, r1}), func(cs *c14Case) { _, _ = cs.api.AddPolicies([][]string{r2, r1}) }),
 		hdr("cinv", func(cs *c14Case) { _ = cs.api.InvalidateCache() }),
@@ -512,6 +519,9 @@ func c14Random(c *Ctx, synced bool, length int, fields []string, rules [][]strin
 			if rng.Intn(3) == 0 {
 				rs = append(rs, []string{"x"})
 			}
+			if rng.Intn(3) == 0 {
+				rs = append([][]string{append(append([]string(nil), anyRule()...), "allow")}, rs...)
+			}
 			_, _ = cs.api.RemovePolicies(rs)
 			rec("crms "+rulesTok(rs), "#")
 		case k < 17:
@@ -520,6 +530,9 @@ func c14Random(c *Ctx, synced bool, length int, fields []string, rules [][]strin
 			rec("cadd "+paramsTok(strParams(r)), "#")
 		case k < 18 && rng.Intn(2) == 0:
 			rs := [][]string{anyRule(), anyRule()}
+			if rng.Intn(3) == 0 {
+				rs = append([][]string{append(append([]string(nil), anyRule()...), "allow")}, rs...)
+			}
 			_, _ = cs.api.AddPolicies(rs)
 			rec("cadds "+rulesTok(rs), "#")
 		case k < 20 && rng.Intn(3) != 0:
